@@ -90,6 +90,7 @@ ExpectedPlace(r) ==
     [] r.conv2 = "vars-path-pkg" -> {main, <<Join(r.decl) \o "vsub/v.gen.go", "vsub">>}
     [] r.conv2 = "other-file-same-pkg" -> {main, <<Join(dir) \o "y.go", pkg>>}
     [] r.conv2 = "vars" -> {main, <<Join(r.decl) \o "v.gen.go", "src">>}
+    [] r.conv2 = "vars-dotted" -> {main, <<Join(r.decl) \o VarOutFile("v.conv.go"), "src">>}      \* only the .go suffix is replaced
     [] OTHER -> {}
 PlaceFinger(r) ==
   LET created == {<<f.path, f.pkg>> : f \in Rng(r.created)} IN
